@@ -50,7 +50,7 @@ func (m *Mesh) icmpExitFrame(from identity.AgentID, f *protocol.Frame) {
 		m.icmpMu.Lock()
 		m.icmpSess[f.StreamID] = s
 		m.icmpMu.Unlock()
-		m.A.VerifProcessFrame(m.B.ID(), &protocol.Frame{Type: s.ack.Type, StreamID: s.ack.StreamID, Payload: append([]byte(nil), s.ack.Payload...)})
+		m.sendAckBurst(s.ack)
 	case protocol.FrameICMPEcho:
 		m.icmpMu.Lock()
 		s := m.icmpSess[f.StreamID]
@@ -85,8 +85,8 @@ type ICMPObs struct {
 	GenuineBefore   bool // (ws) a genuine echo reply was delivered before the replay
 	DerivedByReplay int
 	KeysA1, KeysA2  [][32]byte
-	ForgedAccepted  bool   // (ws) the forged echo reply was delivered as a valid reply
-	GenuineAfter    bool   // (ws) a genuine echo reply is still delivered after the replay
+	ForgedAccepted  bool // (ws) the forged echo reply was delivered as a valid reply
+	GenuineAfter    bool // (ws) a genuine echo reply is still delivered after the replay
 	Detail          string
 }
 
@@ -200,6 +200,21 @@ func (m *Mesh) ReplayICMP(path string) ICMPObs {
 		reply(s.key, 3, "genuine-2")
 		o.GenuineAfter = delivered("genuine-2")
 	}
+	// the ingress seals again after the replay (a re-created SessionKey object would start at counter 0 again)
+	before := func() int { m.icmpMu.Lock(); defer m.icmpMu.Unlock(); return len(s.echoes) + len(s.openErrors) }()
+	if path == "socks5" {
+		m.A.RelayICMPEcho(streamID, 7, 2, []byte("marker-icmp-after"))
+	} else {
+		select {
+		case ws.SendEcho <- &health.ICMPEchoRequest{Identifier: 7, Sequence: 2, Payload: []byte("marker-icmp-after")}:
+		default:
+		}
+	}
+	WaitFor(2*time.Second, func() bool {
+		m.icmpMu.Lock()
+		defer m.icmpMu.Unlock()
+		return len(s.echoes)+len(s.openErrors) > before
+	})
 	if o.Detail == "" {
 		o.Detail = fmt.Sprintf("request id %d", s.reqID)
 	}
